@@ -7,6 +7,7 @@ open Epsic Epsic.Driver
 def table (group : String) : Option (List (String × OpFn)) :=
   match group with
   | "alg" => some opsAlg
+  | "alias" => some opsAlias
   | _ => none
 
 def runLine (ops : Std.HashMap String OpFn) (line : String) : String :=
